@@ -106,6 +106,62 @@ def dtype_converted(v, target, sources, has_request=False) -> tuple:
     return True, ""
 
 
+def npscalar_rule(ctx):
+    """Arithmetic on namespace arrays must not take a raw NumPy result as an operand: `np.log(n)` is a numpy.float64 scalar, and NumPy's
+    promotion rules widen a float32 array combined with it to float64 (a Python float from `math.log` does not).  Accepted: the NumPy value
+    wrapped in a namespace conversion (asarray(.., xp) / array_to_namespace / xp.asarray) or converted to a Python number (float(..), .item())."""
+    repo = ctx.repo
+    n_ops = 0
+    bad = []
+    for f in repo.all_functions():
+        mod = f.ident.split(":")[0]
+        if not any(mod.startswith(p) for p in ("aspire.samples", "aspire.samplers", "aspire.utils", "aspire.transforms")) or f.name.startswith("plot"):
+            continue
+        single = {}
+        cnt = {}
+        for n in walk_no_nested(f.node):
+            if isinstance(n, ast.Assign):
+                for t in n.targets:
+                    for x in ast.walk(t):
+                        if isinstance(x, ast.Name) and isinstance(x.ctx, ast.Store):
+                            cnt[x.id] = cnt.get(x.id, 0) + 1
+                            if isinstance(t, ast.Name):
+                                single[x.id] = n.value
+            elif isinstance(n, (ast.AugAssign, ast.For)):
+                for x in ast.walk(n.target):
+                    if isinstance(x, ast.Name):
+                        cnt[x.id] = cnt.get(x.id, 0) + 2
+
+        def raw_np(e):
+            if isinstance(e, ast.Name) and cnt.get(e.id) == 1 and e.id in single:
+                e = single[e.id]
+            if isinstance(e, ast.Call) and isinstance(e.func, ast.Attribute) and isinstance(e.func.value, ast.Name) and e.func.value.id in ("np", "numpy") \
+                    and e.func.attr not in ("asarray", "array", "frombuffer", "float32", "float16", "stack", "concatenate", "full", "zeros", "ones", "empty"):
+                return e
+            return None
+        for n in walk_no_nested(f.node):
+            ops = []
+            if isinstance(n, ast.BinOp):
+                ops = [(n.left, n.right), (n.right, n.left)]
+            elif isinstance(n, ast.AugAssign):
+                ops = [(n.value, n.target)]
+            for o, other in ops:
+                n_ops += 1
+                r = raw_np(o)
+                if r is None or isinstance(other, ast.Constant) or raw_np(other) is not None:
+                    continue
+                # the other side must be able to hold a namespace array: it mentions self / a call / a subscript
+                if not any(isinstance(x, (ast.Attribute, ast.Call, ast.Subscript)) for x in ast.walk(other)):
+                    continue
+                bad.append((f, n, ast.unparse(r)[:40]))
+    ctx.count("arithmetic_operands_scanned", n_ops)
+    ctx.decide(not bad, "C15.dtype", "package", loc_of(bad[0][0], bad[0][1]) if bad else "src/aspire",
+               "no arithmetic on namespace arrays takes a raw NumPy scalar / array as an operand",
+               (f"{bad[0][0].ident}: `{bad[0][2]}` is a NumPy value (numpy.float64) used directly as an operand of array arithmetic: under the NumPy namespace a float32 "
+                "array combined with it is promoted to float64, so the quantity computed here loses the requested precision width (math.log / float(...) or a namespace conversion keeps it)") if bad else "",
+               disc="npscalar")
+
+
 def run(ctx):
     repo = ctx.repo
     rbs = rebuilds(repo)
@@ -183,6 +239,7 @@ def run(ctx):
                                    "(numpy dtype -> torch raises TypeError; width is not converted)", disc="asarray")
                         break
     ctx.floor("rebuild methods analysed", seen, 18)
+    npscalar_rule(ctx)
 
     # ---- array_to_namespace is value preserving (frozen transparent-wrapper entry)
     B = repo.cls(f"{SAMPLES_MOD}:BaseSamples")
@@ -388,6 +445,8 @@ _S = "src/aspire/samples.py"
 _A = "src/aspire/aspire.py"
 MUTANTS = [
     M("base to_namespace drops log_q", _S, "log_q=self.log_q,\n            xp=xp,\n            device=self.device,", "xp=xp,\n            device=self.device,", "C15.carry"),
+    M("log N taken with NumPy (a numpy.float64 scalar widens float32 evidence)", _S, "asarray(logsumexp(self.log_w), self.xp) - math.log(\n            len(self.x)\n        )", "asarray(logsumexp(self.log_w), self.xp) - np.log(len(self.x))", "C15.dtype"),
+    M("log N taken with NumPy through a local", _S, "return logsumexp(log_w) - math.log(len(self.x))", "log_n = np.log(len(self.x))\n        return logsumexp(log_w) - log_n", "C15.dtype"),
     M("base to_namespace keeps source dtype", _S, "device=self.device,\n            dtype=dtype,", "device=self.device,\n            dtype=self.dtype,", "C15.dtype"),
     M("base to_namespace without xp", _S, "log_q=self.log_q,\n            xp=xp,\n            device=self.device,", "log_q=self.log_q,\n            device=self.device,", "C15.xp"),
     M("resample drops dtype", _S, "beta=beta,\n            dtype=self.dtype,\n            parameters=self.parameters,", "beta=beta,\n            parameters=self.parameters,", "C15.carry"),
@@ -423,6 +482,7 @@ MUTANTS += [
     M("to_numpy returns something else on the fallback path", _U, "except (ValueError, NotImplementedError):\n        return np.asarray(x, **kwargs)", "except (ValueError, NotImplementedError):\n        return np.zeros_like(x)", "C15.helpers"),
 ]
 NEUTRALS = [
+    M("log N taken with NumPy but converted to a Python float", _S, "asarray(logsumexp(self.log_w), self.xp) - math.log(\n            len(self.x)\n        )", "asarray(logsumexp(self.log_w), self.xp) - float(np.log(len(self.x)))"),
     M("sampler dtype through a local", "src/aspire/samplers/importance.py", "x, log_q = self.prior_flow.sample_and_log_prob(n_samples)\n        samples = Samples(\n            x,\n            log_q=log_q,\n            xp=self.xp,\n            parameters=self.parameters,\n            dtype=self.dtype,",
       "x, log_q = self.prior_flow.sample_and_log_prob(n_samples)\n        precision = self.dtype\n        samples = Samples(\n            x,\n            log_q=log_q,\n            xp=self.xp,\n            parameters=self.parameters,\n            dtype=precision,"),
     M("to_namespace builds its keywords first", _S, "return self.__class__(\n            x=self.x,\n            parameters=self.parameters,\n            log_likelihood=self.log_likelihood,\n            log_prior=self.log_prior,\n            log_q=self.log_q,\n            xp=xp,\n            device=self.device,\n            dtype=dtype,\n        )",
